@@ -383,8 +383,52 @@ def oracle_unfitted(case):
     raise Violation(f"{cls}().{m} returned before fit")
 
 
+# two simultaneous values ----------------------------------------------------------------------------------------------------------
+@st.composite
+def pair_case(draw):
+    cls = draw(st.sampled_from(E.GRADIENT_MODELS + ["Kauri"]))
+    table = KAURI if cls == "Kauri" else params_of(cls)
+    names = sorted(n for n in table if n not in ("kernel", "metric", "groups", "feature_mask", "gemini", "base_kernel", "random_state"))
+    a = draw(st.sampled_from(names))
+    b = draw(st.sampled_from([n for n in names if n != a]))
+    va_good = draw(st.booleans())
+    vb_good = draw(st.booleans())
+    va = draw(st.sampled_from(table[a][0] if va_good else table[a][1]))
+    vb = draw(st.sampled_from(table[b][0] if vb_good else table[b][1]))
+    return {"cls": cls, "a": a, "va": va, "b": b, "vb": vb, "good": va_good and vb_good}
+
+
+def oracle_pair(case):
+    cls = case["cls"]
+    X = small_data(9, 3)
+    kw = {"max_clusters": 2} if cls == "Kauri" else {"max_iter": 1, "n_clusters": 2}
+    kw[case["a"]] = case["va"]
+    kw[case["b"]] = case["vb"]
+    if cls == "Kauri":
+        from gemclus.tree import Kauri
+        leaf, split = kw.get("min_samples_leaf", 1), kw.get("min_samples_split", 2)
+        if case["good"] and isinstance(leaf, int) and isinstance(split, int) and 2 * leaf > split:
+            return {"nontrivial": False, "classes": ["inconsistent_pair_skipped"]}
+        make = lambda: Kauri(**kw)
+    else:
+        make = lambda: E.CLASSES[cls](**kw)
+    label = f"{cls}({case['a']}={case['va']!r}, {case['b']}={case['vb']!r})"
+    state = {}
+
+    def action():
+        state["est"] = make()
+        return state["est"].fit(X)
+
+    expect(label, case["good"], action)
+    est = state.get("est")
+    if not case["good"] and est is not None and hasattr(est, "labels_"):
+        raise Violation(f"{label}: rejected but a model was trained")
+    return {"nontrivial": True, "classes": ["both_good" if case["good"] else "some_bad"]}
+
+
 def subs():
     return [
+        Sub("pairs", pair_case(), oracle_pair, 600, 12000, "two hyper-parameters at once (any invalid one must win)"),
         Sub("table", None, oracle_table, 2000, 2000, "hyper-parameter table: documented values accepted, meaningless values rejected",
             plain=lambda tier, seed: table_rows()),
         Sub("groups_exhaustive", None, oracle_groups, 2000, 2000, "all group lists over d<=3 (thorough: d<=4) features",
